@@ -1,6 +1,6 @@
 use super::Optimizer;
 use crate::linalg::Vector;
-use approx_eq::rel_diff;
+use super::rel_change;
 use reverse::*;
 
 /// Implements the Stochastic Gradient Descent optimizer with (Nesterov) momentum.
@@ -124,7 +124,7 @@ impl Optimizer for SGD {
 
             if crate::statistics::max(
                 &(0..param_len)
-                    .map(|i| rel_diff(params[i].val(), prev_params[i].val()))
+                    .map(|i| rel_change(params[i].val(), prev_params[i].val()))
                     .collect::<Vec<_>>(),
             ) < f64::EPSILON
             {
